@@ -147,7 +147,12 @@ func odtAlphabet() []odtKind {
 		{"ln01", nil, func(g *gen, o odtOpt) ([]odtw.Block, []xBlock) {
 			a, b := g.tok(), g.tok()
 			l := odtw.List{Style: "L2", Items: []odtw.Item{item(odtw.P(a), odtw.List{Items: []odtw.Item{item(odtw.P(b))}})}}
-			return []odtw.Block{l}, []xBlock{{kind: kItem, level: 0, atoms: atomsOf(a)}, {kind: kItem, level: 1, atoms: atomsOf(b)}}
+			return []odtw.Block{l}, []xBlock{{kind: kItem, level: 0, ordered: true, atoms: atomsOf(a)}, {kind: kItem, level: 1, ordered: true, atoms: atomsOf(b)}}
+		}},
+		{"lc0", nil, func(g *gen, o odtOpt) ([]odtw.Block, []xBlock) {
+			a, b := g.tok(), g.tok() // third list style: letters starting at 3
+			l := odtw.List{Style: "L3", Items: []odtw.Item{item(odtw.P(a)), item(odtw.P(b))}}
+			return []odtw.Block{l}, []xBlock{{kind: kItem, level: 0, ordered: true, atoms: atomsOf(a)}, {kind: kItem, level: 0, ordered: true, atoms: atomsOf(b)}}
 		}},
 		{"lb11", nil, func(g *gen, o odtOpt) ([]odtw.Block, []xBlock) {
 			// the first item carries only a nested list: the list starts at level 1
@@ -273,7 +278,7 @@ type odtCase struct {
 	shape []string
 }
 
-func buildOdt(alpha []odtKind, seq []int, o odtOpt) odtCase {
+func buildOdt(alpha []odtKind, seq []int, o odtOpt, layout string) odtCase {
 	g := &gen{}
 	var c odtCase
 	fs := map[string]bool{}
@@ -295,14 +300,42 @@ func buildOdt(alpha []odtKind, seq []int, o odtOpt) odtCase {
 		{Name: "T2", Family: "text", Italic: true},
 	}
 	c.opts.AutoStyles = auto
+	// list styles: L1 bullets, L2 numbers, L3 letters from 3; where and in which order they are
+	// declared is the layout dimension (the reading of the body must not depend on it)
+	ls := append(odtw.DefaultListStyles(), odtw.ListStyle{Name: "L3", Levels: []odtw.ListLevel{{Number: true, Format: "a", Start: 3}, {Number: true, Format: "i"}}})
+	switch layout {
+	case "rev":
+		ls = []odtw.ListStyle{ls[2], ls[1], ls[0]}
+	case "rot":
+		ls = []odtw.ListStyle{ls[1], ls[2], ls[0]}
+	case "min": // only the styles the body uses, in order of first use
+		var used []odtw.ListStyle
+		for _, b := range c.doc.Body {
+			if l, ok := b.(odtw.List); ok {
+				dup := false
+				for _, u := range used {
+					dup = dup || u.Name == l.Style
+				}
+				for _, d := range ls {
+					if d.Name == l.Style && !dup {
+						used = append(used, d)
+					}
+				}
+			}
+		}
+		ls = used
+	}
+	if o.styles && layout != "auto" {
+		c.opts.ListStyles = ls
+	} else {
+		c.opts.AutoListStyles = ls
+	}
 	if o.styles {
 		c.opts.Styles = append(odtw.DefaultStyles(),
 			odtw.Style{Name: "Sect", Display: "Section Head", Parent: "Heading_20_1", Class: "text", OutlineLevel: 3},
 			odtw.Style{Name: "Chap", Display: "Chapter Head", Parent: "Heading_20_3", Class: "text", OutlineLevel: 1})
-		c.opts.ListStyles = odtw.DefaultListStyles()
 	} else {
 		c.opts.NoStylesPart = true
-		c.opts.AutoListStyles = odtw.DefaultListStyles()
 	}
 	if o.header {
 		c.doc.Header = []odtw.Para{odtw.P("Hdr01 running head")}
@@ -314,6 +347,13 @@ func buildOdt(alpha []odtKind, seq []int, o odtOpt) odtCase {
 	}
 	if firstItemNested(c.x.blocks) {
 		fs["first-item-nested"] = true
+	}
+	// two lists of different kinds directly after each other
+	for i := 1; i < len(c.x.blocks); i++ {
+		a, b := c.x.blocks[i-1], c.x.blocks[i]
+		if a.kind == kItem && b.kind == kItem && a.list != b.list && a.ordered != b.ordered {
+			fs["adjacent-lists-kind-differ"] = true
+		}
 	}
 	c.shape = sortedKeys(fs)
 	return c
